@@ -92,8 +92,9 @@ func main() {
 	cfg := &packages.Config{
 		Mode: packages.NeedName | packages.NeedFiles | packages.NeedCompiledGoFiles | packages.NeedSyntax |
 			packages.NeedTypes | packages.NeedTypesInfo | packages.NeedImports | packages.NeedDeps,
-		Dir:  dir,
-		Fset: fset,
+		Dir:        dir,
+		Fset:       fset,
+		BuildFlags: []string{"-tags=verif"},
 	}
 	pkgs, err := packages.Load(cfg, pats...)
 	if err != nil {
